@@ -110,13 +110,24 @@ def gen_model(rng, mixed_ok: bool = False) -> dict:
             sterms = [[1.0, sh]] if rng.random() < 0.6 else [[P(lambda: _r(rng, 0.3, 1.5)), sh]]
         else:
             sterms = [[P(lambda: _r(rng, 0.3, 1.2)), shocks[rng.randrange(len(shocks))]]]
+        # shocks shared by several equations, with non-unit (also negative) loadings
+        if rng.random() < 0.3:
+            other = [z for z in shocks if z not in [t[1] for t in sterms]]
+            if other:
+                sterms.append([P(lambda: rng.choice([1, -1]) * _r(rng, 0.2, 1.5)), rng.choice(other)])
         teq.append({"lhs": x, "terms": terms, "shocks": sterms})
+    if nx >= 2 and rng.random() < 0.3:      # a common shock entering two or more equations
+        shocks.append("ec")
+        for e in rng.sample(teq, rng.randint(2, nx)):
+            e["shocks"].append([P(lambda: rng.choice([1, -1]) * _r(rng, 0.2, 1.5)), "ec"])
     kinds = {x: "S" for x in xs}          # by construction: S stationary, N loaded on a unit root
     if rng.random() < 0.45:
         tv.append("w1"); kinds["w1"] = "N"
         st = []
         if rng.random() < 0.6:
             shocks.append("ew1"); st = [[1.0, "ew1"]]
+        if rng.random() < 0.3:
+            st = st + [[P(lambda: rng.choice([1, -1]) * _r(rng, 0.2, 1.2)), rng.choice([z for z in shocks if z != "ew1"])]]
         teq.append({"lhs": "w1", "terms": [[1.0, "w1", -1], [P(lambda: _r(rng, 0.2, 1.0)), rng.choice(xs), 0]], "shocks": st})
         pool = ["d1", "s1", "w2", "co"] + (["i2"] if rng.random() < 0.3 else [])
         for extra in rng.sample(pool, rng.randint(0, 3)):
@@ -153,6 +164,19 @@ def gen_model(rng, mixed_ok: bool = False) -> dict:
                         "shocks": []})
     mv, meq, mshocks = [], [], []
     n_coint = 0
+
+    def mshock_terms(k):
+        """Measurement shocks of equation k: none, its own (unit or free loading), earlier ones (common measurement
+        errors with non-unit loadings), or both."""
+        st = []
+        q = rng.random()
+        if q < 0.7:
+            ms = f"m{k + 1}"; mshocks.append(ms)
+            st.append([1.0, ms] if rng.random() < 0.6 else [P(lambda: _r(rng, 0.3, 1.8)), ms])
+        earlier = [z for z in mshocks if z != f"m{k + 1}"]
+        if earlier and rng.random() < (0.45 if q < 0.7 else 0.7):
+            st.append([P(lambda: rng.choice([1, -1]) * _r(rng, 0.3, 1.8)), rng.choice(earlier)])
+        return st
     if rng.random() < 0.75 or (len(sharing) >= 2 and rng.random() < 0.6):
         for k in range(rng.randint(1, 3)):
             if len(sharing) >= 2 and rng.random() < (0.6 if n_coint == 0 else 0.2):
@@ -163,10 +187,7 @@ def gen_model(rng, mixed_ok: bool = False) -> dict:
                 terms = [[a * sharing[B], A, 0], [-a * sharing[A], B, 0]]
                 if rng.random() < 0.5:
                     terms.append([P(lambda: _r(rng, 0.3, 2.0)), rng.choice([v for v in tv if kinds[v] == "S"]), 0])
-                st = []
-                if rng.random() < 0.7:
-                    ms = f"m{k + 1}"; mshocks.append(ms); st = [[1.0, ms]]
-                meq.append({"lhs": y, "terms": terms, "shocks": st})
+                meq.append({"lhs": y, "terms": terms, "shocks": mshock_terms(k)})
                 kinds[y] = "S"
                 continue
             y = f"y{k + 1}"; mv.append(y)
@@ -175,11 +196,12 @@ def gen_model(rng, mixed_ok: bool = False) -> dict:
                 v = rng.choice(tv)
                 nonst = nonst or kinds[v] == "N"
                 terms.append([P(lambda: _r(rng, 0.3, 2.0)), v, 0])
-            st = []
-            if rng.random() < 0.7:
-                ms = f"m{k + 1}"; mshocks.append(ms); st = [[1.0, ms]]
-            meq.append({"lhs": y, "terms": terms, "shocks": st})
+            meq.append({"lhs": y, "terms": terms, "shocks": mshock_terms(k)})
             kinds[y] = "N" if nonst else "S"
+        if len(mv) >= 2 and rng.random() < 0.35:      # a common measurement error in two or more equations
+            mshocks.append("mc")
+            for e in rng.sample(meq, rng.randint(2, len(mv))):
+                e["shocks"].append([P(lambda: rng.choice([1, -1]) * _r(rng, 0.3, 1.8)), "mc"])
     stds = {}
     for s in shocks + mshocks:
         vals = [_r(rng, 0.1, 2.5) for _ in range(nvar)]
@@ -205,7 +227,13 @@ def gen_model(rng, mixed_ok: bool = False) -> dict:
     if tiny is None and rng.random() < 0.15:
         k = rng.choice(sorted(stds)); unassigned.append(k)
         stds[k] = [0.01 if nonlinear else 1.0] * nvar       # documented defaults
-    return {"tiny": tiny, "cointegrating": n_coint, "coint_names": [e["lhs"] for e in meq if len(e["terms"]) >= 2 and
+    def n_shared(eqs):
+        cnt = {}
+        for e in eqs:
+            for _, z in e["shocks"]:
+                cnt[z] = cnt.get(z, 0) + 1
+        return sum(1 for v in cnt.values() if v >= 2)
+    return {"shared_shocks": [n_shared(teq), n_shared(meq)], "tiny": tiny, "cointegrating": n_coint, "coint_names": [e["lhs"] for e in meq if len(e["terms"]) >= 2 and
                                                                      isinstance(e["terms"][0][0], float)], "nonlinear": nonlinear, "logvars": logvars, "nvar": nvar, "params": params, "stds": stds, "unassigned": unassigned, "tv": tv, "mv": mv,
             "shocks": shocks, "mshocks": mshocks, "kinds": kinds, "has_lead": has_lead, "teq": teq, "meq": meq}
 
@@ -412,7 +440,8 @@ def correspondence(ctx) -> CorrResult:
     per = ctx.scale(13, 16)
     res = CorrResult()
     dist = {"variants": {}, "order": {}, "unit_roots": {}, "alpha_size": {}, "measurement_vars": {}, "style": {},
-            "with_lead": 0, "nonlinear_with_log_variables": 0, "cointegrating_measurement_variables": 0, "tiny_stds": {}, "rejected_at_solve": 0, "rejected_not_unique": 0, "nan_rows": 0, "solver_recorded": 0,
+            "with_lead": 0, "nonlinear_with_log_variables": 0, "cointegrating_measurement_variables": 0, "models_with_shared_transition_shock": 0,
+            "models_with_shared_measurement_shock": 0, "tiny_stds": {}, "rejected_at_solve": 0, "rejected_not_unique": 0, "nan_rows": 0, "solver_recorded": 0,
             "solver_recomputed_by_harness": 0}
     entries = []        # (coq text, meta)
     tries = 0
@@ -450,6 +479,8 @@ def correspondence(ctx) -> CorrResult:
         dist["with_lead"] += int(spec["has_lead"])
         dist["nonlinear_with_log_variables"] += int(spec["nonlinear"])
         dist["cointegrating_measurement_variables"] += spec["cointegrating"]
+        dist["models_with_shared_transition_shock"] += int(spec["shared_shocks"][0] > 0)
+        dist["models_with_shared_measurement_shock"] += int(spec["shared_shocks"][1] > 0)
         if spec["tiny"]:
             dist["tiny_stds"][str(spec["tiny"])] = dist["tiny_stds"].get(str(spec["tiny"]), 0) + 1
         if len(res.samples) < 3:
